@@ -846,6 +846,9 @@ def _r2(ctx, pkg):
 
     def arms(v):
         v = simp(v)
+        if v[0] == "sub" and v[1][0] == "dict" and v[1][1] and v[2][0] != "slice":
+            # `{"r": self.reactants, "p": self.products}[key]`: one of the values of the display
+            return [a for _, val in v[1][1] for a in arms(val)]
         return arms(v[2]) + arms(v[3]) if v[0] in ("phi", "ifexp") else [v]
     sites, blind = [], []
     for f in kfl.facts:
